@@ -709,8 +709,8 @@ def run(ctx):
                 k2 = rng.choice([k for k in IDENTS if k not in spec])
                 spec[k2] = rng.sample(rng.choice([INTS, IDENTS]), rng.randint(1, 4))
             confusable_manager(spec, near, (kind,))
-    for _ in range(ctx.scale(60, 1500)):
-        confusable_manager(*conf_spec(rng, ctx.scale(24, 160), maxlen))
+    for _ in range(ctx.scale(60, 1000)):
+        confusable_manager(*conf_spec(rng, ctx.scale(24, 120), maxlen))
 
     # ---- SiteBatch.search on CONFUSABLE site ids (all integers or all texts, no duplicates): every site is
     #      searched and must be in the batch returned, in that batch only; members of the family that are not
